@@ -96,7 +96,9 @@ def _inheritance_by_evaluation(ctx, ck, config_cls, cfg) -> bool:
                 var.reset = lambda t: None
                 it = Interp(world, table, budget=50_000)
                 it.globals_override[(cfg.name, '_config_var')] = var
-                overrides = {f: (falsy[f] if kind == 'falsy' and f in falsy else Opaque(f'new.{f}')) for f in subset}
+                # (override values are concrete objects, so that `value or inherited` and `if value is not None` are decided)
+                truthy = {'solver_throw': True, 'solver_options': {'option': 1}}
+                overrides = {f: (falsy[f] if kind == 'falsy' and f in falsy else truthy.get(f, _named_stub(PyStub, f'new.{f}'))) for f in subset}
                 n += 1
                 try:
                     obj = it.construct(config_cls, **overrides)
@@ -120,6 +122,12 @@ def _inheritance_by_evaluation(ctx, ck, config_cls, cfg) -> bool:
     ck.expect('K4', not wrong, init.node if init else config_cls.node, f'for all {n} combinations of overridden settings (truthy and falsy values) the state built by Config(...) holds the named settings and inherits the others from the active configuration',
               f'{wrong[0] if wrong else ""}: a named setting is not overridden, or an unnamed one is not inherited from the enclosing block', instance='inheritance by evaluation', semantic=True)
     return True
+
+
+def _named_stub(PyStub, name: str):
+    st = PyStub()
+    st.label = name
+    return st
 
 
 def _subterms19(t):
